@@ -258,10 +258,10 @@ func c18Small(c *Ctx) {
 	var obj *fold.Obj
 	ps := m.Explore(f, func(mm *fold.Machine) []fold.Val {
 		s := fold.SymOfType("u", un).(fold.Struct)
-		s.F[L.utf8Source] = fold.Iface{V: fold.Sym{Name: "old", NonNil: true}}
-		s.F[L.utf8State] = fold.K(24)
-		s.F[L.utf8Codep] = fold.K(5)
-		s.F[L.utf8Accepted] = fold.K(3)
+		uSet(s, L.utf8SourceP, fold.Iface{V: fold.Sym{Name: "old", NonNil: true}})
+		uSet(s, L.utf8StateP, fold.K(24))
+		uSet(s, L.utf8CodepP, fold.K(5))
+		uSet(s, L.utf8AcceptedP, fold.K(3))
 		obj = mm.NewObj("u", s)
 		return []fold.Val{fold.Ref{O: obj}, fold.Iface{V: fold.Sym{Name: "src", NonNil: true}}}
 	}, func(mm *fold.Machine, p *fold.Path) {
